@@ -14,7 +14,7 @@ QUICK = dict(runs=2500, wall=85)
 THOROUGH = dict(runs=150000, wall=1500)
 RULE = ('socket: real SocketServer.serve() in one simulated thread/loop, real SocketClient (its executor thread and loop), 1-4 connections, '
         '1-4 requester threads plus stream(); routes: echo with payload-determined latency (responses complete out of order), raising '
-        'route, no-argument route; payloads: bytes with newlines / header-like text, empty bytes and str, 0 / False, nested structures, '
+        'route (exception class varies with the request: custom, TimeoutError, KeyError, OSError, ValueError), no-argument route, a stream route failing every third request; payloads: bytes with newlines / header-like text, empty bytes and str, 0 / False, nested structures, '
         'sizes straddling 64 KiB (StreamReader limit, transport high-water mark) up to 3.3 MB; transport faults: each write cut at up to 6 '
         'arbitrary points (half of them inside the header line), per-chunk delivery delay, write flow-control pauses; adversarial id() '
         'reuse for the client request ids. pipe (simulated FIFOs, process runs): both directions concurrently, short reads/writes')
@@ -89,6 +89,7 @@ def gen(rng, tier):
             else:
                 ops.append({'op': 'stream', 'ps': [_payload(rng, next(seqs)) for _ in range(rng.choice([1, 3, 6]))],
                             'lats': [rng.choice([0, 0.001, 0.02]) for _ in range(3)], 'return_x': rng.random() < 0.5,
+                            'route': rng.choice(['/echo', '/echo', '/flaky']),
                             # a data iterable that is itself slow (multiples of the client's 0.1 s polling interval included)
                             'src_gaps': [rng.choice([0, 0, 0, 0.05, 0.1, 0.1, 0.2, 0.3]) for _ in range(3)]})
         threads.append({'ops': ops})
@@ -289,7 +290,17 @@ def run(sim, sc):
         lt = lat_of.get(seq_of(x), 0)
         if lt:
             await asyncio.sleep(lt)
-        raise ExcC('route-raise', seq_of(x))
+        raise raise_class(seq_of(x))('route-raise', seq_of(x))
+
+    async def flaky(x):
+        # echo, except that every third request (by its own sequence number) fails
+        handled.append(('flaky', seq_of(x)))
+        lt = lat_of.get(seq_of(x), 0)
+        if lt:
+            await asyncio.sleep(lt)
+        if seq_of(x) % 3 == 0:
+            raise raise_class(seq_of(x) // 3)('route-raise', seq_of(x))
+        return ('echo', x)
 
     async def noarg():
         return 'noarg-result'
@@ -297,6 +308,7 @@ def run(sim, sc):
     app = SocketApplication()
     app.add_route('/echo', echo)
     app.add_route('/raise', raiser)
+    app.add_route('/flaky', flaky)
     app.add_route('/noarg', noarg)
     server = SocketServer(app, path=path)
     server_exc = []
@@ -326,9 +338,9 @@ def run(sim, sc):
                     continue
                 try:
                     if op['route'] == '/noarg':
-                        y = client.request('/noarg', response_timeout=200)
+                        y = client.request('/noarg', response_timeout=20)
                     else:
-                        y = client.request(op['route'], x, response_timeout=200)
+                        y = client.request(op['route'], x, response_timeout=20)
                     results.append((op['p']['seq'], op['route'], x, 'value', y))
                 except Exception as e:
                     results.append((op['p']['seq'], op['route'], x, 'error', e))
@@ -348,10 +360,11 @@ def run(sim, sc):
                         time.sleep(g)
 
                 try:
-                    for z in client.stream('/echo', slow_iter(), return_x=op['return_x'], return_exceptions=True, response_timeout=200):
+                    for z in client.stream(op.get('route', '/echo'), slow_iter(), return_x=op['return_x'], return_exceptions=True, response_timeout=20):
                         got.append(z)
                 except Exception as e:
                     got.append(('STREAM-RAISED', e))
+                sroute = 'stream-flaky' if op.get('route') == '/flaky' else 'stream'
                 for k, p in enumerate(op['ps']):
                     if k >= len(got):
                         results.append((p['seq'], 'stream', xs[k], 'missing', None))
@@ -362,7 +375,7 @@ def run(sim, sc):
                             results.append((p['seq'], 'stream', xs[k], 'bad-pairing', repr(z)[:200]))
                             continue
                         z = z[1]
-                    results.append((p['seq'], 'stream', xs[k], 'error' if isinstance(z, BaseException) else 'value', z))
+                    results.append((p['seq'], sroute, xs[k], 'error' if isinstance(z, BaseException) else 'value', z))
                 if len(got) > len(xs):
                     results.append((-1, 'stream', None, 'extra', repr(got[len(xs):])[:200]))
 
@@ -390,20 +403,30 @@ def run(sim, sc):
     for seq, route, x, kind, y in results:
         if kind in ('missing', 'bad-pairing', 'extra'):
             sim.violation('stream:' + kind, {'seq': seq, 'detail': y})
-        elif route in ('/echo', 'stream'):
+        elif route == '/raise' or (route == 'stream-flaky' and seq_of(x) % 3 == 0):
+            want_cls = raise_class(seq_of(x) if route == '/raise' else seq_of(x) // 3)
+            if kind != 'error' or type(y) is not want_cls or tuple(y.args) != ('route-raise', seq_of(x)):
+                sim.violation('raise:wrong-outcome', {'seq': seq, 'got': repr(y)[:200], 'want': want_cls.__name__})
+        elif route in ('/echo', 'stream', 'stream-flaky'):
             if kind != 'value':
                 sim.violation('echo:request-failed', {'seq': seq, 'exc': repr(y)[:300]})
             elif not (isinstance(y, tuple) and len(y) == 2 and y[0] == 'echo' and _same(y[1], x)):
                 other = seq_of(y[1]) if isinstance(y, tuple) and len(y) == 2 else None
                 sim.violation('echo:' + ('response-of-another-request' if other not in (None, 0, seq) else 'payload-not-intact'),
                               {'seq': seq, 'got_seq': other, 'got': repr(y)[:120], 'want': repr(x)[:120]})
-        elif route == '/raise':
-            if kind != 'error' or type(y).__name__ != 'ExcC' or tuple(y.args) != ('route-raise', seq_of(x)):
-                sim.violation('raise:wrong-outcome', {'seq': seq, 'got': repr(y)[:200]})
         elif route == '/noarg':
             if kind != 'value' or y != 'noarg-result':
                 sim.violation('noarg:wrong-outcome', {'seq': seq, 'got': repr(y)[:200]})
     return {'n': len(results)}
+
+
+RAISE_CLASSES = [ExcC, TimeoutError, KeyError, OSError, ValueError, ExcC]
+
+
+def raise_class(seq):
+    """the handler's exception class is a function of the request (any exception class is the handler's right, also ones the
+    transport itself uses internally, like TimeoutError)"""
+    return RAISE_CLASSES[seq % len(RAISE_CLASSES)]
 
 
 def _same(a, b):
